@@ -23,6 +23,12 @@ def main():
     import logging
     logging.disable(logging.CRITICAL)
     import numpy as np
+
+    def sentinel():
+        return np.array([1e-160]) * np.array([1e-160])
+    v0 = sentinel()            # before any part of the library is loaded
+    pre = {"numpy/float64/1e-160-squared": {"digest": hashlib.sha1(v0.tobytes()).hexdigest(),
+                                            "nonzero": int(np.count_nonzero(v0)), "first": float(v0[0])}}
     so, sys.stdout = sys.stdout, open(os.devnull, "w")
     import enspara
     from enspara.geometry import libdist
@@ -36,7 +42,7 @@ def main():
                                                                                  np.zeros(3, dtype=np.float32)),
         "libdist.manhattan/float64/coordinates-1e-310": lambda: libdist.manhattan(k * 1e-310, np.zeros(3)),
         "libdist.euclidean/float64/ordinary": lambda: libdist.euclidean(k, np.zeros(3)),
-        "numpy/float64/1e-160-squared": lambda: np.array([1e-160]) * np.array([1e-160]),
+        "numpy/float64/1e-160-squared": sentinel,
     }
 
     def stage():
@@ -49,7 +55,8 @@ def main():
 
     mods = sorted(m.name for m in pkgutil.walk_packages(enspara.__path__, "enspara.")
                   if ".test" not in m.name and not m.name.startswith("enspara.apps"))
-    res = {"order": order, "threads": os.environ.get("OMP_NUM_THREADS"), "stages": [], "import_errors": {}}
+    res = {"order": order, "threads": os.environ.get("OMP_NUM_THREADS"), "stages": [{"after": "numpy only", "probes": pre}],
+           "import_errors": {}}
     if order == "late":
         res["stages"].append({"after": "enspara.geometry.libdist only", "probes": stage()})
     for m in mods:
@@ -60,7 +67,7 @@ def main():
             continue
         if order == "late":
             cur = stage()
-            if any(cur[p]["digest"] != res["stages"][-1]["probes"][p]["digest"] for p in cur):
+            if any(cur[p]["digest"] != res["stages"][-1]["probes"].get(p, cur[p])["digest"] for p in cur):
                 res["stages"].append({"after": m, "probes": cur})
     if order == "early":
         res["stages"].append({"after": "every module", "probes": stage()})
